@@ -196,6 +196,24 @@ reg("C17", "exploration",
 
 NOT_READY_REASON = "check under construction in this session (design in DESIGN.md section 3); not yet claimed"
 
+# what the checks gained after the rounds of independently seeded changes (DESIGN.md 8.3a)
+EXTRA = {
+ "C01": " Fee totals of multi-kernel transactions at and above 2^40. Whole-state acceptance: value-creating blocks (unsigned kernel hiding value, swapped range proofs, inflated output) installed behind the pipeline must fail Chain::validate(false), for even and odd kernel counts, in a state with 1067 unspent outputs (proof batches of 1000) and in states with 5095 kernels (signature batches of 5000; bad kernel in the first full batch / in the tail).",
+ "C02": " About half of the blocks with inputs are delivered with (features, commitment) inputs; a fifth forged kind mislabels an input's features; compaction x reorg scenarios also with the competing fork's headers known before the compaction and with the spent sibling pairs created in the very horizon block; the Merkle proofs the node serves for unspent outputs must verify against the reference root.",
+ "C03": " The committed header_head obeys the same more-work rule. Deep world: a 107-block chain with 1035 outputs (two bitmap chunks) with a 2-block fork whose newer block spends outputs of the oldest chunk against a heavier 3-block fork in four delivery orders, and a 62-block fork leaving the chain 60 blocks below the head (parent-first and header batches first).",
+ "C05": " Genuine simple cycles of other lengths (2..41, 43..50) of the same header-seeded graph are presented through pow::verify_size.",
+ "C06": " Hostile blocks also on best-chain blocks below the head (rewind only); header batches with a wrong prev_root; the broken header and its descendants must not be in the header store afterwards.",
+ "C07": " Huge arguments run in monitored child processes (allocation cap, hang watchdog, attribution by re-running the argument alone); programs on one long-lived PMMR object observed only before a rewind and after different leaves were pushed back to the same size; proofs of present leaves with other leaves removed.",
+ "C08": " Compaction x reorg scenarios additionally with header-first forks, with the spent pairs created in the horizon block, and under UserTesting parameters (cut-through horizon 70, state-sync threshold 20) in a process of their own.",
+ "C11": " Also the API-facing JSON documents with hand-written Deserialize impls (api::OutputPrintable, api::Output: every key dropped / null / wrong type / twice, proofs of every length) and their post-decode accessors.",
+ "C12": " Outputs created, spent and created again (the commitment occurs twice on one side: exactly the matched pairs go, operand sets that would leave a duplicate must be refused); every second hydration takes the node's route through Pool::retrieve_transactions.",
+ "C13": " Pool decisions for all three rules with the header chain on a competing fork (one above / level with / one below the body head); decisions taken by a node closed and reopened right before them (start-up index rebuild).",
+ "C14": " A weight-boundary operation: a fan-out and its consolidating child in the pool, fillers walking the pool weight across the mineable limit, the mineable set assembled and weighed after every step.",
+ "C16": " A boundary world whose archive header commits to exactly 1024 outputs; hostile archives in which an unspent leaf is re-labelled with its leaf hash recomputed (sibling spent / unspent).",
+ "C17": " Two archive-server threads per run (txhashset_read of the head / its parent: every handed-out file must be the finished archive, which must unpack completely) and kernel look-ups among the readers.",
+ "C19": " The limit cases also under Mainnet parameters in a process of their own (unknown-type bodies of 47 999 .. 1 000 000 bytes and up to the 5.4 MB limit, each followed by a sentinel); handshake followed by traffic in the same segment; self connection after 1 / 99 / 150 outbound handshakes.",
+}
+
 def main():
     props = [json.loads(l) for l in open("/verif/properties.jsonl")]
     checks = []
@@ -203,7 +221,8 @@ def main():
     for p in props:
         pid = p["id"]
         if pid in READY:
-            r = READY[pid]
+            r = dict(READY[pid])
+            r["text"] = r["text"] + EXTRA.get(pid, "")
             checks.append({
                 "property_id": pid,
                 "quick_cmd": "./check %s --tier quick" % pid,
